@@ -20,17 +20,17 @@ type Fixed8 int64
 // String implements the Stringer interface.
 func (f Fixed8) String() string {
 	buf := new(strings.Builder)
-	val := int64(f)
-	if val < 0 {
+	val := uint64(f)
+	if f < 0 {
 		buf.WriteRune('-')
-		val = -val
+		val = -val // the magnitude fits uint64 for the minimal int64 value too
 	}
-	str := strconv.FormatInt(val/decimals, 10)
+	str := strconv.FormatUint(val/decimals, 10)
 	buf.WriteString(str)
 	val %= decimals
 	if val > 0 {
 		buf.WriteRune('.')
-		str = strconv.FormatInt(val, 10)
+		str = strconv.FormatUint(val, 10)
 		for i := len(str); i < 8; i++ {
 			buf.WriteRune('0')
 		}
